@@ -41,6 +41,7 @@ SEM = {
     "arith.ori": lambda a, b: a | b, "arith.xori": lambda a, b: a ^ b,
     "arith.addf": lambda a, b: a + b, "arith.subf": lambda a, b: a - b, "arith.mulf": lambda a, b: a * b,
     "arith.maximumf": lambda a, b: max(a, b), "arith.minimumf": lambda a, b: min(a, b),
+    "arith.divf": lambda a, b: a / b if b != 0 else Fraction(10 ** 9) + a,  # total stand-in, used consistently
 }
 
 
@@ -54,7 +55,7 @@ def _op_cls(name):
     return {"arith.addi": arith.AddiOp, "arith.subi": arith.SubiOp, "arith.muli": arith.MuliOp,
             "arith.andi": arith.AndIOp, "arith.ori": arith.OrIOp, "arith.xori": arith.XOrIOp,
             "arith.addf": arith.AddfOp, "arith.subf": arith.SubfOp, "arith.mulf": arith.MulfOp,
-            "arith.maximumf": arith.MaximumfOp, "arith.minimumf": arith.MinimumfOp}[name]
+            "arith.maximumf": arith.MaximumfOp, "arith.minimumf": arith.MinimumfOp, "arith.divf": arith.DivfOp}[name]
 
 
 # ------------------------------------------------------------------------------------------------
@@ -92,6 +93,69 @@ def real_encode(body, name="acc"):
     mod, gen = build_generic(body)
     pe = convert_generic_body_to_phs(gen, name, PatternRewriter(gen))
     return pe, (mod, gen)
+
+
+# ------------------------------------------------------------------------------------------------
+# graphs given directly (hand-built with the dialect's constructors), e.g. the inputs of the upstream tests
+def real_pe_from_json(j, name="myfirstaccelerator"):
+    """a real phs.pe built with ChooseOp.from_operations / MuxOp / PEOp from canonical JSON"""
+    from snaxc.dialects import phs
+    from xdsl.dialects.builtin import FunctionType, IndexType
+    from xdsl.ir import Block, Region
+    nd, nsw = len(j["arg_tys"]), len(j["switches"])
+    blk = Block(arg_types=[_mlir_ty(t) for t in j["arg_tys"]] + [IndexType()] * nsw)
+    nodes, ops, keep = [], [], []
+
+    def val(s):
+        if s[0] == "a":
+            return blk.args[s[1]]
+        if s[0] == "n":
+            return nodes[s[1]].results[0]
+        mux = phs.MuxOp(val(s[2]), val(s[3]), blk.args[nd + s[1]])
+        ops.append(mux)
+        return mux.results[0]
+
+    for n in j["nodes"]:
+        opnds = [val(x) for x in n["operands"]]
+        tmp = Block(arg_types=[v.type for v in opnds])  # raw operations over values of their own
+        keep.append(tmp)
+        raw = [_op_cls(nm)(*tmp.args) for nm, _ in n["ops"]]
+        tmp.add_ops(raw)
+        ch = phs.ChooseOp.from_operations(n["id"], opnds, blk.args[nd + n["sw"]], raw, [_mlir_ty(n["res_ty"])])
+        ops.append(ch)
+        nodes.append(ch)
+    y = val(j["yield"])
+    ops.append(phs.YieldOp(y))
+    blk.add_ops(ops)
+    pe = phs.PEOp(name, FunctionType.from_lists(list(blk.arg_types), [y.type]), nsw, Region(blk))
+    return pe, keep
+
+
+def upstream_graphs():
+    """the six processing elements of /repo/tests/dialects/phs/create_input.py, built by the upstream code"""
+    import importlib.util
+    import os
+    p = os.path.join(compat.REPO, "tests/dialects/phs/create_input.py")
+    spec = importlib.util.spec_from_file_location("c20_upstream_create_input", p)
+    m = importlib.util.module_from_spec(spec)
+    spec.loader.exec_module(m)
+    return list(m.create_test_input())
+
+
+def recorded_upstream():
+    import json
+    import os
+    return json.load(open(os.path.join(os.path.dirname(os.path.abspath(__file__)), "c20_upstream.json")))
+
+
+def gen_graphs_case(rng, source):
+    gs = recorded_upstream()
+    idx = list(range(len(gs)))
+    base = rng.choice(idx)
+    rest = [i for i in idx if i != base]
+    rng.shuffle(rest)
+    plan = [base] + rest[:rng.choice([0, 1, 2, 2, 3, 3, 4])]
+    return {"kind": "graphs", "source": source, "graphs": gs, "plan": plan}
 
 
 def case_groups(case):
@@ -546,6 +610,9 @@ class C20(Prop):
             if rng.random() < 0.04:
                 yield gen_from_ops(rng)
                 continue
+            if rng.random() < 0.04:
+                yield gen_graphs_case(rng, rng.choice(["upstream", "json"]))
+                continue
             if rng.random() < 0.15:
                 bodies, groups = gen_grouped(rng, tier, maxmux)
                 yield {"kind": "grouped", "bodies": bodies, "groups": groups}
@@ -554,6 +621,13 @@ class C20(Prop):
             rng.shuffle(bodies)
             yield {"kind": "history", "bodies": bodies}
         if tier == "thorough":
+            # the upstream test inputs in every merge plan of up to three graphs, built by the upstream code and by
+            # the harness's own builder
+            gs = recorded_upstream()
+            for k in (1, 2, 3):
+                for plan in itertools.permutations(range(len(gs)), k):
+                    for source in ("upstream", "json"):
+                        yield {"kind": "graphs", "source": source, "graphs": gs, "plan": list(plan)}
             # exhaustive: every ordered history of <= 3 kernels drawn from a fixed pool of 1-op/2-op bodies
             # over two i32 ports and two ops, every merge order
             pool = []
@@ -604,9 +678,129 @@ class C20(Prop):
                 terms.append(None)
         return {"pe": pj, "true": pe.get_true_switches(), "concrete": pe.is_concrete(), "terms": terms}
 
+    def _graphs_objects(self, case, keep):
+        if case["source"] == "upstream":
+            pes = upstream_graphs()
+            if [pe_json(p)[0] for p in pes] != case["graphs"]:
+                return None
+            return pes
+        pes = []
+        for g in case["graphs"]:
+            pe, k = real_pe_from_json(g)
+            keep.append(k)
+            pes.append(pe)
+        return pes
+
+    def _impl_graphs(self, case):
+        from snaxc.phs.combine import append_to_abstract_graph
+        from snaxc.phs.decode import decode_abstract_graph
+        keep = []
+        gs = self._graphs_objects(case, keep)       # decoded against the element
+        merged = self._graphs_objects(case, keep)   # fresh objects: the element and what is appended to it
+        if gs is None or merged is None:
+            return {"upstream_inputs_differ_from_recorded": True}
+        plan = case["plan"]
+        out = {"steps": []}
+        if not plan:
+            return out
+        abst = merged[plan[0]]
+        for t, i in enumerate(plan):
+            if t > 0:
+                try:
+                    append_to_abstract_graph(merged[i], abst)
+                except Unrepresentable:
+                    raise
+                except Exception as e:  # noqa: BLE001
+                    out["steps"].append({"raised": type(e).__name__})
+                    break
+            pj, ssa_ok, _ = pe_json(abst)
+            decs = []
+            for k in gs:
+                try:
+                    sw = [int(x) for x in decode_abstract_graph(abst, k)]
+                except Exception as e:  # noqa: BLE001
+                    decs.append({"raised": type(e).__name__})
+                    continue
+                full = full_switches(abst, sw)
+                try:
+                    term = eval_pe(abst, sym_inputs(len(abst.data_operands())), full, sym_sem)
+                except Invalid:
+                    term = None
+                decs.append({"sw": sw, "full": full, "term": term})
+            try:
+                self_dec = {"sw": [int(x) for x in decode_abstract_graph(abst, abst)]}
+            except Exception as e:  # noqa: BLE001
+                self_dec = {"raised": type(e).__name__}
+            out["steps"].append({"pe": pj, "ssa_ok": ssa_ok, "true": abst.get_true_switches(), "dec": decs,
+                                 "self": self_dec})
+        return out
+
+    def _oracle_graphs(self, case):
+        """for plans that merge concrete graphs (kernels) only: every merged one decodes, the count is right, the
+        element under the decoded switches computes what the kernel itself computes"""
+        from snaxc.phs.combine import append_to_abstract_graph
+        from snaxc.phs.decode import decode_abstract_graph
+        keep = []
+        gs = self._graphs_objects(case, keep)
+        merged = self._graphs_objects(case, keep)
+        if gs is None or merged is None:
+            return [{"what": "the upstream test inputs are not the recorded ones (tests/dialects/phs/create_input.py or "
+                             "the constructors it uses changed)", "finding": None}]
+        plan = case["plan"]
+        if not plan or not all(gs[i].is_concrete() for i in plan):
+            return []
+        sigs = [[ty_json(a.type) for a in gs[i].data_operands()] for i in plan]
+        if any(s_ != sigs[0] for s_ in sigs):
+            return []
+        out = []
+        abst = merged[plan[0]]
+        n = len(sigs[0])
+        rnd = random.Random(len(plan) * 31 + n)
+        for t, i in enumerate(plan):
+            if t > 0:
+                try:
+                    append_to_abstract_graph(merged[i], abst)
+                except Exception as e:  # noqa: BLE001
+                    return [{"what": f"merging graph {i} raised {type(e).__name__}: {str(e)[:120]}", "finding": None}]
+            for k in plan[:t + 1]:
+                try:
+                    sw = [int(x) for x in decode_abstract_graph(abst, gs[k])]
+                except Exception as e:  # noqa: BLE001
+                    out.append({"what": f"graph {k} is undecodable after {t + 1} merges: {type(e).__name__}", "finding": None})
+                    continue
+                if len(sw) != abst.get_true_switches():
+                    out.append({"what": f"decode of graph {k} yields {len(sw)} values, get_true_switches() = "
+                                        f"{abst.get_true_switches()}", "finding": None})
+                    continue
+                full = full_switches(abst, sw)
+                zeros = [0] * gs[k].switch_no.value.data
+                try:
+                    got = eval_pe(abst, sym_inputs(n), full, sym_sem)
+                    want = eval_pe(gs[k], sym_inputs(n), zeros, sym_sem)
+                except Invalid as e:
+                    out.append({"what": f"graph {k} after {t + 1} merges is not evaluable ({e})", "finding": None})
+                    continue
+                if got == want:
+                    continue
+                for p in concrete_inputs(sigs[0], rnd):
+                    try:
+                        g_ = eval_pe(abst, p, full, conc_sem)
+                    except Invalid as e:
+                        g_ = f"invalid: {e}"
+                    w = eval_pe(gs[k], p, zeros, conc_sem)
+                    if g_ != w:
+                        out.append({"what": f"graph {k} after {t + 1} merges: merged element computes {g_} instead of "
+                                            f"{w} on inputs {[str(x) for x in p]} under switches {full}", "finding": None})
+                        break
+            if out:
+                return out
+        return out
+
     def _impl(self, case):
         if case["kind"] == "from_ops":
             return self._impl_from_ops(case)
+        if case["kind"] == "graphs":
+            return self._impl_graphs(case)
         from snaxc.phs.combine import append_to_abstract_graph
         from snaxc.phs.decode import decode_abstract_graph
         bodies = case["bodies"]
@@ -680,6 +874,8 @@ class C20(Prop):
         if case["kind"] == "from_ops":
             return [{"fn": "c20.fromops", "args": {"ops": [
                 [name, [case["arg_tys"][s[1]] for s in srcs], rty] for name, rty, srcs in case["ops"]]}}]
+        if case["kind"] == "graphs":
+            return [{"fn": "c20.graphs", "args": {"graphs": case["graphs"], "plan": case["plan"]}}]
         if not all(well_typed(b) for b in case["bodies"]):
             return []
         args = {"bodies": case["bodies"]}
@@ -694,7 +890,7 @@ class C20(Prop):
         if "ok" not in a:
             return {"model_error": a.get("err")}
         out = a["ok"]
-        if case["kind"] == "from_ops":
+        if case["kind"] in ("from_ops", "graphs"):
             return out
 
         def switch_as_data(src, nd):
@@ -719,6 +915,8 @@ class C20(Prop):
         from snaxc.phs.decode import decode_abstract_graph
         if case["kind"] == "from_ops":
             return self._oracle_from_ops(case)
+        if case["kind"] == "graphs":
+            return self._oracle_graphs(case)
         bodies = case["bodies"]
         if not all(well_typed(b) for b in bodies) or not bodies:
             return []
@@ -889,6 +1087,8 @@ class C20(Prop):
     def nontrivial(self, case, impl_out):
         if case["kind"] == "from_ops":
             return isinstance(impl_out, dict) and len(impl_out.get("terms", [])) > 1
+        if case["kind"] == "graphs":
+            return isinstance(impl_out, dict) and len(impl_out.get("steps", [])) > 1
         if not isinstance(impl_out, dict) or not impl_out.get("steps") or len(case["bodies"]) < 2:
             return False
         last = impl_out["steps"][-1]
@@ -900,6 +1100,9 @@ class C20(Prop):
         k = case.get("kind", "case")
         if k == "from_ops":
             return f"{k}:raised:{impl_out['raised']}" if "raised" in impl_out else f"{k}:n={len(case['ops'])}"
+        if k == "graphs":
+            last = (impl_out.get("steps") or [{}])[-1] if isinstance(impl_out, dict) else {}
+            return f"{k}:{case['source']}:" + (f"merge-raised:{last['raised']}" if "raised" in last else f"n={len(case['plan'])}")
         if isinstance(impl_out, dict) and "raised" in impl_out:
             return f"{k}:raised:{impl_out['raised']}"
         if isinstance(impl_out, dict) and impl_out.get("steps"):
@@ -910,6 +1113,10 @@ class C20(Prop):
         return f"{k}:no-steps"
 
     def shrink(self, case):
+        if case["kind"] == "graphs":
+            for i in range(1, len(case["plan"])):
+                yield dict(case, plan=case["plan"][:i] + case["plan"][i + 1:])
+            return
         if case["kind"] == "from_ops":
             for i in range(len(case["ops"])):
                 yield {"kind": "from_ops", "arg_tys": case["arg_tys"], "ops": case["ops"][:i] + case["ops"][i + 1:]}
